@@ -50,6 +50,19 @@ def abi_program(pt, k):
     return pt.Seq(s1.set("a"), s2.set("b" * (k + 1)), conc(s1, s2).store_into(o), pt.Log(o.get()), pt.Approve())
 
 
+def collide_program(pt, k):
+    """a recursive subroutine whose local slots are numbered 0 and 8 (they collide in a small int-set hash table)"""
+    @pt.Subroutine(pt.TealType.uint64)
+    def rec(n):
+        a = pt.ScratchVar(pt.TealType.uint64, 0)
+        b = pt.ScratchVar(pt.TealType.uint64, 8)
+        c = pt.ScratchVar(pt.TealType.uint64, 16 + 8 * (k % 3))
+        return pt.Seq(a.store(n + pt.Int(1)), b.store(n + pt.Int(2)), c.store(n + pt.Int(3)),
+                      pt.If(n == pt.Int(0)).Then(pt.Return(pt.Int(1))),
+                      pt.Return(a.load() + b.load() + c.load() + rec(n - pt.Int(1))))
+    return pt.Seq(pt.Log(pt.Itob(rec(pt.Int(3)))), pt.Approve())
+
+
 def router_program(pt, k):
     from pyteal import abi
     r = pt.Router("r", pt.BareCallActions(no_op=pt.OnCompleteAction.create_only(pt.Approve())))
@@ -97,6 +110,14 @@ def main():
                 _, k, version = item
                 t = pt.compileTeal(abi_program(pt, k), pt.Mode.Application, version=version)
                 d = [hashlib.sha1(t.encode()).hexdigest()]
+            elif kind == "collide":
+                _, k, version = item
+                t = pt.compileTeal(collide_program(pt, k), pt.Mode.Application, version=version)
+                d = [hashlib.sha1(t.encode()).hexdigest()]
+                for rep in range(3):
+                    noise(pt, "ok", step + rep)
+                    t2 = pt.compileTeal(collide_program(pt, k), pt.Mode.Application, version=version)
+                    d.append(hashlib.sha1(t2.encode()).hexdigest())
             elif kind == "router":
                 _, k, version = item
                 r = router_program(pt, k)
